@@ -12,11 +12,15 @@ Record snap := { sn_c : nat; sn_open : bool; sn_tracked : list nat; sn_inst : bo
 (* what was observed after one event (lists sorted) *)
 Record stepobs := { so_hooks : list nat; so_closes : list nat; so_sockclosed : list nat; so_slots : nat;
                     so_conns : list snap; so_accepted : option bool; so_reply : nat }.
-Record case := { k_thread : bool; k_pool : nat; k_events : list event; k_obs : list stepobs }.
+Record case := { k_thread : bool; k_pool : nat; k_hookfail : list nat (* connections whose user hook raises *);
+                 k_events : list event; k_obs : list stepobs }.
 
-Definition cfg (thread : bool) (pool : nat) : config :=
-  if thread then {| cf_shape := thread_shape; cf_pool := Some pool |}
-  else {| cf_shape := mux_shape; cf_pool := None |}.
+(* the thread-pool server with [pool] workers / the multiplex server, run by a Daemon subclass whose clientDisconnect
+   hook raises exactly for the connections selected by [hk] *)
+Definition cfg (thread : bool) (pool : nat) (hk : conn -> bool) : config :=
+  if thread then {| cf_shape := with_hooks thread_shape hk; cf_pool := Some pool |}
+  else {| cf_shape := with_hooks mux_shape hk; cf_pool := None |}.
+Definition hook_set (l : list nat) : conn -> bool := fun c => existsb (Nat.eqb c) l.
 
 Definition hooks_of (o : list out) : list nat :=
   sort (flat_map (fun x => match x with DisconnectHook c => [c] | _ => [] end) o).
@@ -42,7 +46,7 @@ Fixpoint model_steps (cf : config) (st : state) (evs : list event) : list stepob
   | [] => []
   | ev :: t => let (st', o) := step cf st ev in model_obs st st' ev o :: model_steps cf st' t
   end.
-Definition model_case (k : case) : list stepobs := model_steps (cfg (k_thread k) (k_pool k)) init (k_events k).
+Definition model_case (k : case) : list stepobs := model_steps (cfg (k_thread k) (k_pool k) (hook_set (k_hookfail k))) init (k_events k).
 
 Definition nats_eqb := list_eqb Nat.eqb.
 Definition snap_eqb (a b : snap) : bool :=
